@@ -516,8 +516,17 @@ def fortran_only(tok):
 
 
 def known_class(base_text, text, base, new, msg):
-    '''No open finding is left for C14 (the Fortran-spelling classes were
-    repaired in /repo ffaf98c and a161adb): every difference is a violation.'''
+    '''Narrow class of the open finding message_block_no_blank_after_colon:
+    the rewrite is the original text behind ONE extra block "message:<word>..."
+    (no blank after the colon) and a blank line, the original converts, the
+    rewrite dies in get_block_positions (ValueError, spurious blank lines).'''
+    if base[0] != 'ok' or new != ('err', 'ValueError'):
+        return None
+    if 'spurious blank lines' not in msg or not text.endswith(base_text):
+        return None
+    head = text[:len(text) - len(base_text)]
+    if re.fullmatch(r'message:\S[^\n]*\n(?: {5,}\S[^\n]*\n)*[ \t]*\n', head, flags=re.I):
+        return 'message_block_no_blank_after_colon'
     return None
 
 
@@ -576,6 +585,16 @@ def run_sweep(res, tier, rng):
                     res, args)
         if k == 0:
             res.sample({'deck': base_text, 'rewrite': text})
+        # separate, labelled stream (open finding): the canonical text behind
+        # a message block whose first word goes on after the colon
+        if base[0] == 'ok' and k % 8 == 0:
+            text = rng.choice(['message:outp=x', 'MESSAGE:o=x r=y', 'Message:xsdir=a\n     outp=b']) \
+                + '\n' + rng.choice(['', ' ', '\t']) + '\n' + base_text
+            res.seen(text)
+            res.count('sweep:stream:message_without_blank')
+            compare(base_text, base, text,
+                    {'used': ['message block without blank after the colon'],
+                     'stream': 'message_without_blank'}, False, res, args)
     res.obligation(f'sweep: {n_decks} decks x {n_rewrites} random layouts, '
                    f'{n_ok} converted, '
                    f'{n_fail} rejected (the rewrite must be rejected the same '
@@ -585,11 +604,15 @@ def run_sweep(res, tier, rng):
 # ---------------------------------------------------------------------------
 # known findings
 # ---------------------------------------------------------------------------
-WITNESS_BASE = ('witness\n1 1 {rho} -1 imp:n={i}\n2 0 1 -2 fill=1 ({x} 0 0) imp:n=1\n'
+WITNESS_BASE = ('{pre}witness\n1 1 {rho} -1 imp:n={i}\n2 0 1 -2 fill=1 ({x} 0 0) imp:n=1\n'
                 '3 0 -3 u=1 imp:n=1\n4 0 3 u=1 imp:n=1\n5 0 2 imp:n=0\n\n'
                 '1 1 so {r}\n2 so 9.0\n3 so 1.0\n\ntr1 {t} 0 0\nm1 1001 2 8016 {f}\n')
-WITNESS_DEFAULT = dict(rho='-1.0', r='5.0', t='1.0', f='1.0', x='1.0', i='1')
+WITNESS_DEFAULT = dict(rho='-1.0', r='5.0', t='1.0', f='1.0', x='1.0', i='1', pre='')
 WITNESSES = [
+    # open: message block whose first word goes on after the colon
+    ('message:outp=x', dict(pre='message:outp=x\n\n')),
+    ('MESSAGE:OUTP=x and a continuation line', dict(pre='MESSAGE:OUTP=x\n     runtpe=r\n \n')),
+    ('message: outp=x (with the blank: recognised)', dict(pre='message: outp=x\n\n')),
     # repaired in /repo a161adb (to_float in parse_keywords)
     ('IMP:N=1.0+0 on a cell card', dict(i='1.0+0')),
     ('IMP:N=.1d1 on a cell card', dict(i='.1d1')),
